@@ -269,6 +269,11 @@ class Entity(Block):
 
                 if _entity_instantiation_handler is not None:
                     _entity_instantiation_handler(info)
+            except BaseException:
+                # do not keep a partially built instance, a later compilation
+                # would use it instead of evaluating the architecture again
+                info.instantiated = None
+                raise
             finally:
                 assert len(_block_stack) == 1
                 _block_stack = prev_block_stack
